@@ -20,6 +20,11 @@ use std::time::Instant;
 
 pub const SHARDS: u64 = 16;
 pub const VERIF_ROOT: &str = "/verif";
+/// Where evidence and replay files go. `/verif` unless `VERIF_OUT_DIR` is set (used by the isolated mutation sweep of
+/// tools/automut.py, which runs the same binaries against scratch copies of the tree and must not touch /verif's files).
+pub fn out_root() -> String {
+    std::env::var("VERIF_OUT_DIR").ok().filter(|s| !s.is_empty()).unwrap_or_else(|| VERIF_ROOT.to_string())
+}
 
 #[derive(Clone, Copy, Debug, PartialEq, Eq)]
 pub enum Tier {
@@ -399,7 +404,7 @@ impl Ctx {
                 let path = if replaying {
                     "(replay)".to_string()
                 } else {
-                    let dir = PathBuf::from(format!("{VERIF_ROOT}/replays"));
+                    let dir = PathBuf::from(format!("{}/replays", out_root()));
                     std::fs::create_dir_all(&dir).ok();
                     let body = json!({"property": property, "section": section, "sig": sig, "msg": msg, "seed": seed, "case": case_v});
                     let p = dir.join(format!("{}-{}-{:08x}.json", property, section, hash_of(&body.to_string()) as u32));
@@ -688,7 +693,7 @@ impl Ctx {
             let path = if replaying {
                 PathBuf::from("(replay)")
             } else {
-                let dir = PathBuf::from(format!("{VERIF_ROOT}/replays"));
+                let dir = PathBuf::from(format!("{}/replays", out_root()));
                 std::fs::create_dir_all(&dir).ok();
                 let body = json!({"property": self.property, "section": v.section, "sig": v.sig, "msg": v.msg, "seed": self.seed, "case": v.case});
                 let h = hash_of(&body.to_string());
@@ -742,7 +747,7 @@ impl Ctx {
                 "wall_s": (wall * 1000.0).round() / 1000.0,
                 "violations": nviol,
             });
-            let dir = PathBuf::from(format!("{VERIF_ROOT}/evidence"));
+            let dir = PathBuf::from(format!("{}/evidence", out_root()));
             std::fs::create_dir_all(&dir).ok();
             let p = dir.join(format!("{}.json", self.property));
             std::fs::write(&p, serde_json::to_string_pretty(&ev).unwrap()).expect("write evidence");
